@@ -59,7 +59,19 @@ theorem C09_leImpl_ok : LE leImpl := by
   have hlast : (body ++ [q]).getLast? = some q := by simp
   have hdl : (body ++ [q]).dropLast = body := by simp
   have hqq : (q == '"' || q == '\'') = true := by rcases hq with rfl | rfl <;> decide
+  have hws : isWs q = false := by rcases hq with rfl | rfl <;> decide
+  have hstrip : stripWs (q :: (body ++ [q])) = q :: (body ++ [q]) := by
+    unfold stripWs
+    have h1 : (q :: (body ++ [q])).dropWhile isWs = q :: (body ++ [q]) := by simp [List.dropWhile, hws]
+    rw [h1]
+    have h2 : (q :: (body ++ [q])).reverse = q :: (body.reverse ++ [q]) := by simp
+    rw [h2]
+    have h3 : (q :: (body.reverse ++ [q])).dropWhile isWs = q :: (body.reverse ++ [q]) := by simp [List.dropWhile, hws]
+    rw [h3]
+    simp
   unfold leImpl
+  rw [hstrip]
+  unfold leCore
   simp only [hqq, ↓reduceIte, hlast, hdl]
   split
   · left; rfl
